@@ -156,6 +156,13 @@ theorem strong_within_capacity (h : Reachable kd res (initState cap scripts) s) 
     s.g.strong.length ≤ s.g.cap :=
   (reachable_inv (init_inv cap scripts) h).gi.lenFree hl
 
+/-- retention is of the right object: whenever the lock is free, every entry `(k, i)` of the strong
+cache is the live object of its key — `weak k = some i` — so the next request for `k` finds `i`
+even if no caller references it any more (the strong reference also keeps the GC step away from it) -/
+theorem strong_retains (h : Reachable kd res (initState cap scripts) s) (hl : s.g.lock = none) :
+    ∀ e ∈ s.g.strong, s.g.weak e.1 = some e.2 :=
+  (reachable_inv (init_inv cap scripts) h).swFree hl
+
 /-- lock discipline: the lock is held exactly by a thread that is inside a `with` block
 (acquire / release balanced on every path); in particular nobody holds it once all have finished -/
 theorem lock_discipline (h : Reachable kd res (initState cap scripts) s) :
